@@ -4,6 +4,7 @@ import (
 	"fmt"
 	"io"
 	"math/rand"
+	"sync"
 	"time"
 
 	"google.golang.org/grpc/codes"
@@ -57,9 +58,23 @@ func WithNoDuplicates() Option {
 // WithRNG configures the source of randomness for the resource.
 // Defaults to rand.Rand with a time seed.
 func WithRNG(rng io.Reader) Option {
+	// one option value may configure several resources (a trait model hands its options to each of its
+	// collections): they then share the source, so its reads are serialised here and not per resource
+	shared := &lockedReader{r: rng}
 	return optionFunc(func(s *config) {
-		s.rng = rng
+		s.rng = shared
 	})
+}
+
+type lockedReader struct {
+	mu sync.Mutex
+	r  io.Reader
+}
+
+func (l *lockedReader) Read(p []byte) (int, error) {
+	l.mu.Lock()
+	defer l.mu.Unlock()
+	return l.r.Read(p)
 }
 
 // WithInitialValue configures the initial value for the resource.
